@@ -14,6 +14,8 @@ VOCAB = [
     ":", ",", ";", "-", "–", ".", "(", ")", "[", "]", "/", "&", "and", "of", "the", "in", "through", "thru", "to",
     "NE/4", "NE¼", "N½", "N/2", "SW/4NE/4", "S2N2", "Northeast Quarter", "North Half of the South Half", "ALL", "All of",
     "Lot 1", "Lots 1 - 3", "Lots 1, 2, 5", "Lot 4 (38.12)", "Lot 4 [38.12]", "N/2 of Lot 1", "L1", "Lots 5 - 3", "Lot",
+    # (lot lists that go on after a divided lot, acreages on the later lots)
+    "Lot 2(40.00)", "Lots 5(38.20), 6", "N/2 of Lots 1 - 3 and Lots 5(38.20), 6", "E/2SW/4 of Lot 7, and Lot 8(39.21)", ", Lot",
     "less and except", "except", "insofar as", "including", "from the surface to the base of", "wellbore", "well",
     "limited to depths", "That part lying north of the river", "Beginning at a point", "thence north 40 rods",
     "5th P.M.", "of the 6th Principal Meridian", "1", "14", "97", "154", "1000", "0", "38.12",
